@@ -34,6 +34,7 @@ def primitives(ctx, rule):
     sub = type(ctx)(ctx.prop, ctx.facts)
     for op, nested in (("add_inplace", ("Nested", "NestedOptional")), ("sub_inplace", ()), ("mul_inplace", ()), ("mean_inplace", ())):
         sub.guard("R15.1", op, c15.elementwise, sub, op, nested)
+    sub.guard("R15.2", "shape-equality", c15.shape_equality, sub, "R15.2")     # shape refusals rest on Shape == Shape
     bad = [o for o in sub.obligations if o["status"] != "ok"]
     for o in bad:
         ctx.bad(rule, "primitive:" + o["instance"], o["key"].split("/", 3)[-1], o["where"], o["detail"])
@@ -203,7 +204,9 @@ def r2(ctx, fn, ms):
     writes = [x for x in walk(fn["body"]) if x.get("k") in ("assign", "assignop") and mentions_local(x["l"], ah)]
     ctx.check("R11.2", "activated-is-append-only", set(muts) <= {"push", "pop"} and not writes, "activated-modified:" + ",".join(muts + [short(pretty(w), 40) for w in writes]), c.loc(fn, writes[0]) if writes else c.loc(fn),
               "activated: push/pop only", "`activated` is modified by %s; the recorded outputs that later skips read must not be overwritten with combined inputs" % (muts + [short(pretty(w), 60) for w in writes]))
-    pushes = [pretty(strip(x["args"][0])) for x in walk(fn["body"]) if x.get("k") == "mcall" and x["name"] == "push" and e4.local_hid(x["recv"]) == ah]
+    from ..hir import let_table, cpretty
+    TT_ = let_table(fn["body"])
+    pushes = [cpretty(strip(x["args"][0]), TT_) for x in walk(fn["body"]) if x.get("k") == "mcall" and x["name"] == "push" and e4.local_hid(x["recv"]) == ah]
     ctx.check("R11.2", "activated-holds-outputs", pushes[:2] == ["input.clone()", "post"] and set(pushes[2:]) <= {"last.flatten()", "last"}, "activated-pushes:" + ",".join(pushes), c.loc(fn), "input, then every post")
     return lp
 
